@@ -20,6 +20,7 @@ import (
 	tomldec "github.com/vimeo/dials/decoders/toml"
 	yamldec "github.com/vimeo/dials/decoders/yaml"
 	"github.com/vimeo/dials/parse"
+	"github.com/vimeo/dials/ptrify"
 	"github.com/vimeo/dials/sources/env"
 	"github.com/vimeo/dials/sources/flag"
 	"github.com/vimeo/dials/sources/pflag"
@@ -48,6 +49,9 @@ type textTarget struct {
 	// structured, if set, draws an input that passes the target's outer
 	// syntax check (a parsing document, a well-formed argument vector).
 	structured func(t *rapid.T, sel int) []byte
+	// hotSels are selectors the rapid generator picks more often than their
+	// uniform share (the input-named field / tag modes of the source targets).
+	hotSels []int
 }
 
 type textSeed struct {
@@ -534,9 +538,109 @@ var envLeaves = func() []flatLeaf {
 	return ls
 }()
 
+// identFromBytes turns arbitrary bytes into an exported Go field name: only
+// letters, digits and '_' are kept, an 'F' is put in front unless the first
+// byte is an upper-case ASCII letter.
+func identFromBytes(data []byte) string {
+	var b strings.Builder
+	for _, c := range data {
+		if c == '_' || (c >= '0' && c <= '9') || (c >= 'a' && c <= 'z') || (c >= 'A' && c <= 'Z') {
+			b.WriteByte(c)
+		}
+		if b.Len() >= 300 {
+			break
+		}
+	}
+	id := b.String()
+	if id == "" || id[0] < 'A' || id[0] > 'Z' {
+		id = "F" + id
+	}
+	return id
+}
+
+// tagFromBytes makes the bytes a plausible dials tag: letters, digits, '_'
+// and '-' only, starting with a letter (a tag without any letter or digit
+// flattens to an EMPTY name, and one with '=' or a leading '-' is rejected by
+// the flag package with a deliberate panic: such tags are programming errors
+// outside the property's "distinct flattened leaf names" precondition).
+func tagFromBytes(data []byte) string {
+	var b strings.Builder
+	for _, c := range data {
+		if c == '_' || c == '-' || (c >= '0' && c <= '9') || (c >= 'a' && c <= 'z') || (c >= 'A' && c <= 'Z') {
+			b.WriteByte(c)
+		}
+		if b.Len() >= 300 {
+			break
+		}
+	}
+	tg := b.String()
+	if tg == "" || !((tg[0] >= 'a' && tg[0] <= 'z') || (tg[0] >= 'A' && tg[0] <= 'Z')) {
+		tg = "t" + tg
+	}
+	return tg
+}
+
+// dynType builds a one-leaf config type whose field NAME (mode 0) or dials TAG
+// (mode 1) is taken from the input: the flattening sources run the case
+// decoders (DecodeGoCamelCase / DecodeGoTags) over it.
+func dynType(mode int, data []byte) (t, pt reflect.Type, desc string) {
+	sf := reflect.StructField{Name: "Fa", Type: reflect.TypeOf("")}
+	if mode == 0 {
+		sf.Name = identFromBytes(data)
+		desc = "struct{ " + sf.Name + " string }"
+	} else {
+		tg := tagFromBytes(data)
+		sf.Tag = reflect.StructTag(`dials:"` + tg + `"`)
+		desc = "struct{ Fa string `dials:\"" + tg + "\"` }"
+	}
+	t = reflect.StructOf([]reflect.StructField{sf, {Name: "Other", Type: reflect.TypeOf(0)}})
+	return t, ptrify.Pointerify(t, reflect.New(t).Elem()), desc
+}
+
+// runEnvDyn: the env source on an input-named type; the variable name is
+// derived with the source's own name chain inside the guarded call.
+func runEnvDyn(mode int, data []byte) textResult {
+	_, pt, desc := dynType(mode, data)
+	var v reflect.Value
+	var err error
+	var name string
+	what := fmt.Sprintf("env source on %s", clipBytes([]byte(desc)))
+	pi, hung := guard(what, func() {
+		if ls, lerr := flatLeaves(pt, "env"); lerr == nil && len(ls) > 0 {
+			name = ls[0].Name
+		}
+		if name != "" && !strings.ContainsAny(name, "=\x00") {
+			if old, ok := os.LookupEnv(name); ok {
+				defer os.Setenv(name, old)
+			} else {
+				defer os.Unsetenv(name)
+			}
+			os.Setenv(name, "v")
+		}
+		v, err = (&env.Source{}).Value(context.Background(), dialsType(pt))
+	})
+	label := []string{"field:dynamic-name", "field:dynamic-tag"}[mode]
+	if hung {
+		return textResult{viol: hangViolation(what)}
+	}
+	if pi != nil {
+		return textResult{viol: panicViolation(what, pi)}
+	}
+	if err != nil {
+		return textResult{labels: []string{label, "err"}}
+	}
+	if viol := checkSourceType(what, v, pt); viol != nil {
+		return textResult{viol: viol}
+	}
+	return textResult{labels: []string{label, "ok"}, nt: countSet(v) > 0}
+}
+
 func runEnvValue(sel int, data []byte) textResult {
 	n := len(envLeaves)
-	sel = sel % (n + 1)
+	sel = sel % (n + 3)
+	if sel > n {
+		return runEnvDyn(sel-n-1, data)
+	}
 	val := string(data)
 	var names []string
 	if sel == n {
@@ -608,7 +712,60 @@ func splitArgs(data []byte) []string {
 	return args
 }
 
+// runFlagDyn: the flag / pflag source on an input-named type, with the flag
+// (name derived by the source's own chain) given on the command line.
+func runFlagDyn(source string, mode int, data []byte) textResult {
+	t, pt, desc := dynType(mode, data)
+	var v reflect.Value
+	var err error
+	what := fmt.Sprintf("%s source on %s", source, clipBytes([]byte(desc)))
+	pi, hung := guard(what, func() {
+		name := ""
+		if ls, lerr := flatLeaves(pt, source); lerr == nil && len(ls) > 0 {
+			name = ls[0].Name
+		}
+		var args []string
+		if name != "" && !strings.ContainsAny(name, "= \x00") && !strings.HasPrefix(name, "-") {
+			args = []string{"--" + name + "=v"}
+		}
+		if source == "flag" {
+			var s *flag.Set
+			s, err = flag.NewSetWithArgs(flag.DefaultFlagNameConfig(), reflect.New(t).Interface(), args)
+			if err != nil {
+				return
+			}
+			s.Flags.SetOutput(io.Discard)
+			v, err = s.Value(context.Background(), dialsType(pt))
+			return
+		}
+		var s *pflag.Set
+		s, err = pflag.NewSetWithArgs(pflag.DefaultFlagNameConfig(), reflect.New(t).Interface(), args)
+		if err != nil {
+			return
+		}
+		s.Flags.SetOutput(io.Discard)
+		v, err = s.Value(context.Background(), dialsType(pt))
+	})
+	label := []string{"field:dynamic-name", "field:dynamic-tag"}[mode]
+	if hung {
+		return textResult{viol: hangViolation(what)}
+	}
+	if pi != nil {
+		return textResult{viol: panicViolation(what, pi)}
+	}
+	if err != nil {
+		return textResult{labels: []string{label, "err"}}
+	}
+	if viol := checkSourceType(what, v, pt); viol != nil {
+		return textResult{viol: viol}
+	}
+	return textResult{labels: []string{label, "ok"}, nt: countSet(v) > 0}
+}
+
 func runFlagArgs(sel int, data []byte) textResult {
+	if m := sel % 3; m > 0 {
+		return runFlagDyn("flag", m-1, data)
+	}
 	args := splitArgs(data)
 	var v reflect.Value
 	var err error
@@ -645,6 +802,9 @@ func runFlagArgs(sel int, data []byte) textResult {
 }
 
 func runPflagArgs(sel int, data []byte) textResult {
+	if m := sel % 3; m > 0 {
+		return runFlagDyn("pflag", m-1, data)
+	}
 	args := splitArgs(data)
 	var v reflect.Value
 	var err error
